@@ -16,6 +16,8 @@ use elf::symbol::Symbol;
 pub const DEF: PropDef = PropDef { id: "C11", strata, run, setup, canaries: &["panic"] };
 
 fn setup(ctx: &mut Ctx) {
+    ctx.floor("same-object-sequences", 1000);
+    ctx.floor("same-object:absent-then-colliding-present", 1000);
     ctx.floor("absent:query-aliases-a-stored-name", 1000);
     ctx.floor("present-found", 5000);
     ctx.floor("absent-none", 5000);
@@ -59,6 +61,52 @@ fn find<E: EndianParse>(e: E, enc: Enc, hash: &[u8], symtab: &[u8], strtab: &[u8
         Ok(None) => Found::None,
         Err(e) => Found::Err(format!("{e:?}")),
     })
+}
+
+/// all the queries, one after the other, on ONE table object (a lookup may not depend on the lookups before it)
+fn find_seq<E: EndianParse>(e: E, enc: Enc, hash: &[u8], symtab: &[u8], strtab: &[u8], names: &[Vec<u8>]) -> Result<Vec<Found>, String> {
+    let class = class_of(enc);
+    let t = GnuHashTable::new(e, class, hash).map_err(|e| format!("{e:?}"))?;
+    let st = ParsingTable::<E, Symbol>::new(e, class, symtab);
+    let strs = StringTable::new(strtab);
+    Ok(names
+        .iter()
+        .map(|name| match t.find(name, &st, &strs) {
+            Ok(Some((i, s))) => Found::Some(i, s),
+            Ok(None) => Found::None,
+            Err(e) => Found::Err(format!("{e:?}")),
+        })
+        .collect())
+}
+
+fn find_seq_any(enc: Enc, any: bool, hash: &[u8], symtab: &[u8], strtab: &[u8], names: &[Vec<u8>]) -> Result<Vec<Found>, String> {
+    match (any, enc.big) {
+        (true, false) => find_seq(AnyEndian::Little, enc, hash, symtab, strtab, names),
+        (true, true) => find_seq(AnyEndian::Big, enc, hash, symtab, strtab, names),
+        (false, false) => find_seq(LittleEndian, enc, hash, symtab, strtab, names),
+        (false, true) => find_seq(BigEndian, enc, hash, symtab, strtab, names),
+    }
+}
+
+/// `queries` on one table object must give what each gives on a fresh table
+fn same_object_sequence(ctx: &mut Ctx, enc: Enc, any: bool, hash: &[u8], symtab: &[u8], strtab: &[u8], queries: &[Vec<u8>]) -> bool {
+    let Ok(seq) = find_seq_any(enc, any, hash, symtab, strtab, queries) else { return true };
+    ctx.count("same-object-sequences");
+    for (k, (q, got)) in queries.iter().zip(seq.iter()).enumerate() {
+        ctx.eval();
+        let Ok(fresh) = find_any(enc, any, hash, symtab, strtab, q) else { continue };
+        let same = match (&fresh, got) {
+            (Found::None, Found::None) => true,
+            (Found::Some(i, _), Found::Some(j, _)) => i == j,
+            (Found::Err(a), Found::Err(b)) => a == b,
+            _ => false,
+        };
+        if !same {
+            ctx.violation("gnu:depends-on-earlier-queries", format!("query #{k} {} on a table object that had answered {} queries before: {:?}; on a fresh table object: {:?} (previous query: {})", hex_trunc(q, 40), k, got, fresh, if k > 0 { hex_trunc(&queries[k - 1], 40) } else { "-".to_string() }));
+            return false;
+        }
+    }
+    true
 }
 
 pub fn find_any(enc: Enc, any: bool, hash: &[u8], symtab: &[u8], strtab: &[u8], name: &[u8]) -> Result<Found, String> {
@@ -160,6 +208,27 @@ fn well_formed(ctx: &mut Ctx) {
     }
     let mut absent: Vec<(Vec<u8>, bool)> = names.iter().take(so).skip(1).map(|n| (n.clone(), true)).collect();
     absent.extend(absent_candidates(&mut ctx.rng, &names[so.min(nsyms)..], true).into_iter().map(|n| (n, false)));
+    // one table object answering a whole sequence: every absent name next to the present name it collides with (in
+    // both orders), then a shuffled mix
+    {
+        let mut seq: Vec<Vec<u8>> = Vec::new();
+        for (a, _) in absent.iter().filter(|(a, _)| !hashed.contains(&a[..])) {
+            let h = ref_gnu_hash(a);
+            if let Some(p) = names.iter().skip(so).find(|n| ref_gnu_hash(n) == h || ref_gnu_hash(n) == h ^ 1) {
+                seq.extend([a.clone(), p.clone(), p.clone(), a.clone(), p.clone()]);
+                ctx.count("same-object:absent-then-colliding-present");
+            }
+            if seq.len() > 120 {
+                break;
+            }
+        }
+        let mut mix: Vec<Vec<u8>> = names.iter().skip(so).take(40).cloned().chain(absent.iter().take(40).map(|x| x.0.clone())).collect();
+        ctx.rng.shuffle(&mut mix);
+        seq.extend(mix);
+        if !same_object_sequence(ctx, enc, any, &hash, &tab.symtab, &tab.strtab, &seq) {
+            return;
+        }
+    }
     for (a, unhashed) in absent {
         if hashed.contains(&a[..]) {
             continue;
